@@ -465,6 +465,11 @@ def finaliseArr (a : ArrSt) : Except Err ArrayData :=
     else if pending then .error .bufferLen
     else .ok ⟨a.names, a.null, frames⟩
 
+/-- `FrameArray.mask_array(self._null)` → `AbsentValue.mask_absent_values`: every channel but the X axis is masked
+exactly where the stored value EQUALS the null value (`array == null`; an unparseable cell holds the null value). -/
+def maskOf (a : ArrayData) : List (List Bool) :=
+  a.frames.map (fun r => r.zipIdx.map (fun p => p.2 != 0 && numEq (cellKey a.null p.1) a.null))
+
 /-- one line delivered by `generate_lines` -/
 def step (st : St) (line : Str) : Except Err St :=
   match st.cur with
